@@ -245,6 +245,28 @@ partial def showYVal : YVal → String
   | .obj c kvs => "{" ++ c ++ " " ++ " ".intercalate (kvs.map fun kv => kv.1 ++ "=" ++ showYVal kv.2) ++ "}"
   | .ufunc n => "ufunc:" ++ n | .cls n => "class:" ++ n
 
+partial def parseAttrs : List String → List (String × AttrVal String)
+  | k :: "N" :: r => (k, .none) :: parseAttrs r
+  | k :: "P" :: v :: r => (k, .plain v) :: parseAttrs r
+  | k :: "L" :: dim :: nc :: r =>
+      let coords := r.take (pN nc)
+      let r := r.drop (pN nc)
+      match r with
+      | nv :: r => (k, .labelled [(dim, coords)] (r.take (pN nv))) :: parseAttrs (r.drop (pN nv))
+      | [] => []
+  | _ => []
+
+def showAttr : AttrVal String → String
+  | .none => "None"
+  | .plain v => v
+  | .labelled coords vals => "<" ++ " ".intercalate (coords.map fun c => c.1 ++ ":" ++ ",".intercalate c.2) ++ "|" ++ ",".intercalate vals ++ ">"
+
+def showAttrs (a : List (String × AttrVal String)) : String :=
+  " ".intercalate (a.map fun kv => kv.1 ++ "=" ++ showAttr kv.2)
+
+def splitAt (sep : String) (l : List String) : List String × List String :=
+  (l.takeWhile (· != sep), (l.dropWhile (· != sep)).drop 1)
+
 def step (line : String) : String :=
   match (line.trimAscii.toString.splitOn " ").filter (· ≠ "") with
   -- C19 ---------------------------------------------------------------
@@ -482,6 +504,15 @@ def step (line : String) : String :=
       match parseYVal toks with
       | some (v, []) => showYVal (construct ctorTable (represent v))
       | _ => "bad-op"
+  -- C16 ---------------------------------------------------------------
+  | "quantise" :: levels :: vs =>
+      " ".intercalate ((vs.map pF).map fun v => toString (Float.floor (preQuant (pN levels) v)).toUInt64.toNat)
+  | "displayscale" :: lo :: hi :: vs => sFs ((vs.map pF).map (displayScale (pF lo) (pF hi)))
+  | "rescale" :: smin :: smax :: imin :: imax :: qs => sFs ((qs.map pF).map (rescaleOnLoad (pF smin) (pF smax) (pF imin) (pF imax)))
+  | "packunpack" :: toks => showAttrs (unpackAttrs (fun (t : String) => t) (packAttrs (fun (v : String) => v) (parseAttrs toks)))
+  | "updatemeta" :: toks =>
+      let (a, b) := splitAt "|" toks
+      showAttrs (updatedAttrs (parseAttrs a) (parseAttrs b))
   | ["genfailures"] => toString (translationFailures ++ projTranslationFailures ++ tablesTranslationFailures)
   | _ => "bad-op"
 
